@@ -178,7 +178,7 @@ pub fn run(ctx: &Ctx) {
         if nontrivial(s) {
             ctx.class("nontrivial");
             ctx.nontrivial(hash_of(&scenario_json(s).to_string()));
-            if hash_of(&scenario_json(s).to_string()) % 61 == 0 {
+            if (ctx.samples_len() < 2 || hash_of(&scenario_json(s).to_string()) % 61 == 0) {
                 ctx.sample(3, || scenario_json(s));
             }
         }
